@@ -66,7 +66,7 @@ def main(tier, replay=None):
                 l = l.strip()
                 if l.startswith("case: "):
                     l = l[6:]
-                if l.split(" ")[0] in ("D", "R"):
+                if l.split(" ")[0] in ("D", "R", "E"):
                     f.write(l + "\n")
     else:
         subprocess.run([hbin, "gen", c.tier, str(c.seed), rd], check=True)
@@ -141,6 +141,14 @@ def main(tier, replay=None):
                     "identities unchanged; an authentic one may move only its own session's window and exchange slots",
                     "token format: <class>[plain;proto;payload]<= | !sessions|group counter store>; classes: " +
                     ", ".join("%s=%s" % kv for kv in CLASS_TEXT.items()),
+                ]
+            elif where == "unauthentic":
+                text += [
+                    "the extracted property (mon_decode) is false on the round trip: the receiver delivered the datagram the sender's "
+                    "real TX path produced (second token of the output), but that datagram is not an honest sealing for the receiving "
+                    "session / group key: its body is not the AES-CCM sealing of (protocol header ++ payload) under the session key with "
+                    "nonce = security flags | counter | sender node id and associated data = the whole encoded plain header (the world "
+                    "entry of the case, made with the raw primitive) - sender and receiver agree on something else than the specification",
                 ]
             else:
                 text += [
